@@ -29,8 +29,7 @@ GATE_FNS = ["FeoxStore::update_record_with_ttl", "FeoxStore::update_record_with_
             "FeoxStore::delete_with_timestamp"]
 
 
-def check_gate(ctx):
-    inst = "C01.gate"
+def check_gate(ctx, inst="C01.gate"):
     for fn in GATE_FNS:
         body = ctx.fn(fn, inst)
         if body is None:
